@@ -167,25 +167,25 @@ def validate_obs(traces, jobs=8, batch=150, keep_dir=None):
 # conformance: TraceImpl (the recorded trace replayed through the actions of Bubus.tla)
 # ---------------------------------------------------------------------------------------------
 _H_OPS = {'d', 'y', 's', 'a', 'rb', 'raise', 'ret', 'g', 'logop'}
-_D_OPS = {'d', 'a', 'y', 's', 'idle', 'g'}
+_D_OPS = {'d', 'a', 'y', 's', 'idle', 'g', 'acc'}
 
 
 def impl_eligible(scn):
     """The subset of scenarios the detailed model covers so far (grows with the model)."""
     if any(b.get('parallel') or b.get('wal') for b in scn['buses']):
         return False
-    if any(h.get('kind', 'async') not in ('async', 'fwd') for h in scn['handlers']):
+    if any(h.get('kind', 'async') not in ('async', 'fwd', 'sync') for h in scn['handlers']):
         return False
     if any((t or {}).get('timeout') is not None or (t or {}).get('rtype') for t in scn.get('events', {}).values()):
         return False
     for sc in scn['scripts'].values():
         for ops in sc.values():
             for op in ops:
-                if op[0] not in _H_OPS or (op[0] == 'd' and len(op) > 3 and op[3]) or (op[0] == 'ret' and op[1] not in ('none', 'exc')):
+                if op[0] not in _H_OPS or (op[0] == 'd' and len(op) > 3 and op[3]):
                     return False
     for ops in scn['drivers']:
         for op in ops:
-            if op[0] not in _D_OPS or (op[0] == 'd' and ((len(op) > 3 and op[3]) or len(op) > 4)) or (op[0] == 'idle' and len(op) > 2 and op[2] is not None):
+            if op[0] not in _D_OPS or (op[0] == 'd' and ((len(op) > 3 and op[3]) or len(op) > 4)) or (op[0] == 'idle' and len(op) > 2 and op[2] is not None and op[2] < 1000):
                 return False
     return True
 
